@@ -78,6 +78,10 @@ func Rounds(rounds []round.Session, rule Rule) (error, bool) {
 		return nil, true
 	}
 	if roundType.String() == reflect.TypeOf(&round.Abort{}).String() {
+		// the protocol ended in an abort: report the protocol's own error
+		if abort, ok := rounds[0].(*round.Abort); ok && abort.Err != nil {
+			return abort.Err, true
+		}
 		return nil, true
 	}
 
